@@ -217,8 +217,12 @@ Eff(kind, arg) ==
       [] kind = "remove"      -> [NoEff EXCEPT !.kind = kind, !.rem = arg]
       [] kind \in {"rename", "redesc", "rotate"} -> [NoEff EXCEPT !.kind = kind, !.str = arg]
       [] kind \in {"admins", "relays"} -> [NoEff EXCEPT !.kind = kind, !.set = arg]
+      \* a leaf update that swaps the committer's Nostr identity for arg.to (raw MLS only): arg = [from, to]
+      [] kind = "idchange" -> [NoEff EXCEPT !.kind = kind, !.rem = {arg.from}, !.add = {arg.to}]
 
 PureSelfUpdate(e) == ev[e].eff.kind = "self_update" /\ ev[e].refs = {}
+\* what mdk's authorisation check takes for a pure self-update (an identity swap also has an update path only)
+LooksLikeSelfUpdate(e) == ev[e].eff.kind \in {"self_update", "idchange"} /\ ev[e].refs = {}
 
 -----------------------------------------------------------------------------
 (* Process: the reaction of a client to one event.                          *)
@@ -242,7 +246,9 @@ Merged(cs, g, k) ==
 
 \* post-merge bookkeeping of process_commit / own-commit echo
 AfterMerge(cs0, g, e, oldRecEpoch, c, isSelfUpd) ==
-    IF c \notin MlsState(cs0, g).members
+    LET k == cs0.g[g].chain[Len(cs0.g[g].chain)] IN         \* the commit just merged
+    \* own leaf gone?  (a committer that swapped its own identity still owns its leaf)
+    IF c \notin MlsState(cs0, g).members /\ ~(ev[k].eff.kind = "idchange" /\ ev[k].author = c)
     THEN \* handle_local_member_eviction
          LET cs1 == [cs0 EXCEPT !.g[g].mls = "evicted", !.g[g].rec.st = "inactive"]
          IN  Ret(SetProc(cs1, e, "processed", g, oldRecEpoch), "Commit")
@@ -293,8 +299,10 @@ ProcProposal(cs, c, e, g, recEpoch, nm) ==
 ProcCommit(cs, c, e, g, recEpoch) ==
     LET E   == ev[e]
         gs0 == MlsState(cs, g) IN
-    IF E.author \notin gs0.admins /\ ~PureSelfUpdate(e)
+    IF E.author \notin gs0.admins /\ ~LooksLikeSelfUpdate(e)
     THEN Ret(RecordFailure(cs, e, g, recEpoch), "Err")                      \* CommitFromNonAdmin
+    ELSE IF E.eff.kind = "idchange"
+    THEN FailUnprocessable(cs, e, g, recEpoch)                               \* IdentityChangeNotAllowed
     ELSE LET cs1 == TakeSnapshot(cs, g, e)
              cs2 == Merged(cs1, g, e)
          IN  AfterMerge(cs2, g, e, recEpoch, c, FALSE)
@@ -483,7 +491,7 @@ CanCommit(c, g) == /\ Created(g)
                    /\ cl[c][g].pend = NoE
 NewCommit(c, g, kind, arg, nm) ==
     LET gs == cl[c][g]
-        P  == gs.props
+        P  == {p \in gs.props : ~(p.k = "update" /\ p.a = c)}     \* the MLS library drops the committer's own Update proposals
         eff == Eff(kind, arg) IN
     [name |-> nm.name, kind |-> "commit", g |-> g, author |-> c, parent |-> gs.chain,
      ts |-> nm.ts, rank |-> nm.rank, tag |-> gs.rec.data.nid, eff |-> eff, refs |-> P, gen |-> gs.sentH,
@@ -495,6 +503,7 @@ CommitAllowedX(c, g, kind, arg, raw) ==
     /\ c \in s.members
     /\ c \notin PropRemoves(cl[c][g].props)      \* a committer cannot commit its own removal
     /\ (kind # "self_update" /\ ~raw) => c \in s.admins
+    /\ kind = "idchange" => raw /\ arg.from = c /\ arg.to \in s.members /\ arg.to # c
     /\ kind = "remove" => arg # {} /\ arg \subseteq s.members /\ c \notin arg
     /\ kind = "add" => arg # {} /\ arg \cap s.members = {}
     /\ kind = "admins" => arg # {} /\ (raw \/ arg \subseteq s.members)
@@ -647,6 +656,18 @@ ProposeRemove(c, g, nm, target) ==
            cs0 == CS(c)
            cs1 == [cs0 EXCEPT !.out = <<E>>, !.g[g].sentH = @ + 1,
                               !.g[g].props = @ \cup {[a |-> c, k |-> "remove", t |-> target]}]
+       IN  Install(c, cs1)
+    /\ UNCHANGED <<ginfo, withdrawn, wl, welc, pwelc, hist>>
+
+\* a member proposes a refresh of its own leaf directly with the MLS library (mdk ignores Update proposals)
+ProposeUpdate(c, g, nm) ==
+    /\ CanLeave(c, g) /\ nm.name \notin DOMAIN ev
+    /\ LET gs == cl[c][g]
+           E == [name |-> nm.name, kind |-> "prop", g |-> g, author |-> c, parent |-> gs.chain,
+                 ts |-> nm.ts, rank |-> nm.rank, tag |-> gs.rec.data.nid, pkind |-> "update", target |-> c, gen |-> gs.sentH]
+           cs0 == CS(c)
+           cs1 == [cs0 EXCEPT !.out = <<E>>, !.g[g].sentH = @ + 1,
+                              !.g[g].props = @ \cup {[a |-> c, k |-> "update", t |-> c]}]
        IN  Install(c, cs1)
     /\ UNCHANGED <<ginfo, withdrawn, wl, welc, pwelc, hist>>
 
